@@ -605,6 +605,14 @@ func scenarios() []struct {
 
 func main() {
 	res = report.Init("C06", "model_checking")
+	if report.FreeRun > 0 {
+		explore.FreeRuns = report.FreeRun
+		for _, s := range scenarios() {
+			runScenario(s.sc, s.bound)
+		}
+		res.Add("free_runs", int64(explore.FreeRunsDone))
+		res.Finish()
+	}
 	if report.ReplayF != "" {
 		replay()
 		return
